@@ -196,4 +196,35 @@ example (s : Sym) :
             = (analyse (exSpec false)).reg.allNodes.reverse from by decide]
       exact List.mem_reverse) s
 
+/-- AS IT WAS (repaired by 71dabda): the hypothesis of `C08_stack_pick_order_independent` -- pairwise distinct keys -- is not a
+formality.  Two symbols that print alike (two refinement objects with equal parameters) have ONE key; a stable sort leaves them in
+the order of the enumeration, and the same gene selects different symbols under two enumerations of the same set. -/
+theorem C08_stack_twins_witness :
+    [1, 2].Perm [2, 1] ∧ stackPickSorted (fun _ => 7) [1, 2] 0 = some 1 ∧ stackPickSorted (fun _ => 7) [2, 1] 0 = some 2 := by
+  refine ⟨List.Perm.swap 2 1 [], ?_, ?_⟩ <;> decide
+
+/-- the combined key orders by printed form first … -/
+theorem C08_tie_break_respects_key (key rank : Key → Nat) (M : Nat) (a b : Key) (ha : rank a < M) (hk : key a < key b) :
+    key a * M + rank a < key b * M + rank b := by
+  have : (key a + 1) * M ≤ key b * M := Nat.mul_le_mul_right M hk
+  rw [Nat.add_mul, Nat.one_mul] at this
+  omega
+
+/-- AS REPAIRED: ties in the printed form are broken by the rank of first mention in a deterministic walk over the grammar (pairwise
+distinct, below `M`).  Whatever the printed forms are -- equal ones included -- the symbol a gene selects does not depend on the
+enumeration of the set. -/
+theorem C08_stack_pick_ties_broken (key rank : Key → Nat) (M : Nat) {xs ys : List Key} (hperm : xs.Perm ys)
+    (hr : ∀ a ∈ xs, rank a < M) (hinj : ∀ a ∈ xs, ∀ b ∈ xs, rank a = rank b → a = b) (i : Nat) :
+    stackPickSorted (fun a => key a * M + rank a) xs i = stackPickSorted (fun a => key a * M + rank a) ys i := by
+  apply C08_stack_pick_order_independent _ hperm
+  intro a ha b hb h
+  apply hinj a ha b hb
+  have h1 := hr a ha
+  have h2 := hr b hb
+  have hm : (key a * M + rank a) % M = (key b * M + rank b) % M := by rw [h]
+  rw [Nat.mul_add_mod_self_right, Nat.mul_add_mod_self_right, Nat.mod_eq_of_lt h1, Nat.mod_eq_of_lt h2] at hm
+  exact hm
+
+example : stackPickSorted (fun a => 7 * 4 + a) [1, 2] 0 = stackPickSorted (fun a => 7 * 4 + a) [2, 1] 0 := by decide
+
 end GEVerif.C08
